@@ -233,6 +233,48 @@ func ruleT3(c *Ctx) {
 	}
 	// SetHdr keeps the first header of a type: stores only when the slot is Missing()
 	if fd := c.Decls["HdrLst.SetHdr"]; fd != nil {
+		// the slot is really written, with the header handed in, for every valid index: the store into the table
+		// exists, copies the parameter, and the guard that dominates it is exactly 0 <= index < len(table)
+		if sf := c.SFuncs["HdrLst.SetHdr"]; sf != nil {
+			okStore, why := false, "no store into the first-of-type table"
+			for _, b := range sf.Blocks {
+				for _, ins := range b.Instrs {
+					st, ok := ins.(*ssa.Store)
+					if !ok {
+						continue
+					}
+					ia, ok := st.Addr.(*ssa.IndexAddr)
+					if !ok {
+						continue
+					}
+					ld, isLd := st.Val.(*ssa.UnOp)
+					if !isLd || len(sf.Params) < 2 || ld.X != ssa.Value(sf.Params[1]) {
+						why = "the value stored is not the header handed in"
+						continue
+					}
+					env := newLinEnv(linOpts{})
+					idx := env.norm(ia.Index)
+					lowOK := false
+					for _, f := range env.factsAt(b) {
+						// -idx <= 0  (idx >= 0, exactly)
+						d := f.L.add(idx, 1)
+						if d.isConst() && d.C == 0 && len(f.L.T) == len(idx.T) {
+							lowOK = true
+						}
+					}
+					// the upper bound is the index-guard rule's business (C04-G); here only the lower edge matters
+					okStore = lowOK
+					if lowOK {
+						why = ""
+					} else {
+						why = "the guard does not admit every index from 0 (type 1 would lose its slot)"
+					}
+				}
+			}
+			c.check(okStore, "T3", "SetHdr:stores-slot", sf.Pos(), "SetHdr copies the header handed in into table[Type-1] under a guard that admits exactly the indices >= 0 "+why)
+		} else {
+			c.fail("T3", "SetHdr:stores-slot", fd.Pos(), "HdrLst.SetHdr not found")
+		}
 		c.check(strings.Contains(c.src(fd.Body), ".Missing()"), "T3", "SetHdr:first-only", fd.Pos(), "a slot is written only while it is still missing (first header of the type wins)")
 		// ... and "missing" means exactly "no type recorded": the predicate reads the Type field only
 		if mf := c.SFuncs["Hdr.Missing"]; mf != nil {
